@@ -46,6 +46,8 @@ fn take_one_boundary(order: &mut HashMap<u32, u32>) -> Option<Vec<u32>> {
     let mut next = order.remove(&start)?;
 
     while next != start {
+        #[cfg(feature = "verif")]
+        crate::verif::tick();
         sequence.push(next);
         next = order.remove(&next)?;
     }
@@ -128,6 +130,8 @@ pub fn compute_patch_indices(mesh: &Mesh) -> Vec<Vec<usize>> {
         let mut patch = vec![face_index];
 
         while let Some((v0, v1)) = working_queue.pop() {
+            #[cfg(feature = "verif")]
+            crate::verif::tick();
             let e0 = (v0, v1);
             let e1 = (v1, v0);
 
